@@ -770,6 +770,7 @@ func rxMain(args []string) error {
 	nuntil := fs.Int("until", 0, "multi-round scenarios consumed with NextPackageUntil")
 	untilScn := fs.String("untilscn", "", "consumer behaviours generated by TLC from Until.tla")
 	nkinds := fs.Int("kinds", 0, "per package kind: this many one-package responses, every 1-cut each")
+	nerrorder := fs.Int("errorder", 0, "stress trials: a consumer polling while a complete packet is followed at once by the end of the stream")
 	nfail := fs.Int("fail", 0, "responses for the transport-failure driver (every byte offset)")
 	failTimeout := fs.Int("failtimeout", 0, "PacketReadTimeout (s) for the failure driver")
 	failStep := fs.Int("failstep", 1, "failure driver: only every n-th offset (plus the first and last)")
@@ -1189,6 +1190,78 @@ func rxMain(args []string) error {
 				return err
 			}
 		}
+	}
+
+	// C14, order: a consumer that is calling NextPackage at the very moment the last complete packet and
+	// the failure arrive must still get the packet's packages before the error (the error of the
+	// connection and the queued package can both be ready in NextPackage's select)
+	if *nerrorder > 0 {
+		overtaken, lost := 0, 0
+		one := encRetStat(7).Bytes
+		for t := 0; t < *nerrorder; t++ {
+			if err := r.fresh(true, 0); err != nil {
+				return err
+			}
+			ch, mc := r.ch, r.mc
+			res := make(chan string, 1)
+			go func() {
+				first := ""
+				got := 0
+				deadline := time.Now().Add(2 * time.Second)
+				for time.Now().Before(deadline) {
+					pkg, err := ch.NextPackage(context.Background(), false)
+					switch {
+					case err == nil && pkg != nil:
+						got++
+						if first == "" {
+							first = "pkg"
+						}
+					case errors.Is(err, tds.ErrNoPackageReady):
+						if first == "err" {
+							// nothing more queued behind the error
+							if got == 0 {
+								res <- "lost"
+							} else {
+								res <- "overtaken"
+							}
+							return
+						}
+						if got > 0 {
+							// wait for the error that must follow
+							continue
+						}
+					default:
+						if first == "" {
+							first = "err"
+							continue // is the package still queued behind it?
+						}
+						if first == "pkg" {
+							res <- "ok"
+							return
+						}
+					}
+				}
+				res <- "timeout:" + first
+			}()
+			time.Sleep(time.Duration(rng.Intn(300)) * time.Microsecond)
+			mc.mu.Lock()
+			mc.idleErr = io.EOF
+			mc.rq = append(mc.rq, readItem{data: mkPacket(4, 1, 0, 0, one)})
+			mc.mu.Unlock()
+			mc.cond.Broadcast()
+			switch v := <-res; v {
+			case "overtaken":
+				overtaken++
+			case "lost":
+				lost++
+			case "ok":
+			default:
+				lost++ // neither order was observed within the bound
+			}
+			mc.Close()
+		}
+		tr.Reset(map[string]interface{}{"driver": "errorder", "seed": *seed})
+		tr.Emit(Ev{"ev": "ErrOrder", "n": *nerrorder, "overtaken": overtaken, "lost": lost})
 	}
 
 	for i := 0; i < *nfail; i++ {
